@@ -140,7 +140,8 @@ def relocate_moved_definitions(trees: Dict[str, ast.Module]) -> List[Tuple[str, 
                         continue
                     xb = _bindings(trees[x])
                     if a in xb and xb[a][0] == "def":
-                        wanted.append((x, a, a, (holder, v)))
+                        # at module level under the method's own name when that is free (calls between moved helpers then read as before)
+                        wanted.append((x, a, b if b not in mb else a, (holder, v)))
         if not wanted:
             continue
         # ---- closure over what the moved definitions use of their module
@@ -254,3 +255,82 @@ def relocate_moved_definitions(trees: Dict[str, ast.Module]) -> List[Tuple[str, 
         for x in {x for (x, _a) in plan}:
             ast.fix_missing_locations(trees[x])
     return done
+
+
+def reattach_static_aliases(trees: Dict[str, ast.Module]) -> List[Tuple[str, str, str]]:
+    """A pinned static method that became a module-level function of the same module, kept on the class by the alias
+    ``b = staticmethod(g)``, is a static method again: the definition replaces the alias, uses of ``g`` read ``self.b`` inside the
+    methods of the class and ``C.b`` elsewhere (also in modules that import ``g`` and the class)."""
+    funcs, _consts, base_modules = _baseline()
+    done: List[Tuple[str, str, str]] = []
+    for m in sorted(trees):
+        if m not in base_modules:
+            continue
+        tree = trees[m]
+        for cls in [st for st in tree.body if isinstance(st, ast.ClassDef)]:
+            for cst in list(cls.body):
+                if not (isinstance(cst, ast.Assign) and len(cst.targets) == 1 and isinstance(cst.targets[0], ast.Name)):
+                    continue
+                b, v = cst.targets[0].id, cst.value
+                if not (isinstance(v, ast.Call) and isinstance(v.func, ast.Name) and v.func.id == "staticmethod" and len(v.args) == 1 and not v.keywords
+                        and isinstance(v.args[0], ast.Name)):
+                    continue
+                g = v.args[0].id
+                if f"{m}.{cls.name}.{b}" not in funcs or f"{m}.{g}" in funcs:
+                    continue
+                defs = [st for st in tree.body if isinstance(st, ast.FunctionDef) and st.name == g]
+                if len(defs) != 1 or any(isinstance(x, ast.FunctionDef) and x.name == b for x in cls.body):
+                    continue
+                fn = defs[0]
+                if fn.decorator_list and not all(isinstance(d, ast.Name) and d.id == "staticmethod" for d in fn.decorator_list):
+                    continue
+                tree.body.remove(fn)
+                fn.name = b
+                fn.decorator_list = [ast.Name(id="staticmethod", ctx=ast.Load())]
+                cls.body[cls.body.index(cst)] = fn
+                _rename_uses(tree, g, cls, b)
+                for n, other in trees.items():
+                    if n == m:
+                        continue
+                    ob = _bindings(other)
+                    local = [nm for nm, (kind, key) in ob.items() if kind == "import" and key[0] == "from" and key[3] == g
+                             and _pkg_target(ast.ImportFrom(module=key[2] or None, names=[], level=key[1])) == m]
+                    has_cls = ob.get(cls.name, ("", None))[0] == "import"
+                    if local and has_cls:
+                        for nm in local:
+                            _rename_uses(other, nm, cls, b, foreign=True)
+                        for st in other.body:
+                            if isinstance(st, ast.ImportFrom) and _pkg_target(st) == m:
+                                st.names = [al for al in st.names if not (al.name == g)]
+                        other.body = [st for st in other.body if not (isinstance(st, ast.ImportFrom) and not st.names)]
+                        ast.fix_missing_locations(other)
+                done.append((m, g, f"{cls.name}.{b}"))
+        ast.fix_missing_locations(tree)
+    return done
+
+
+def _rename_uses(tree: ast.Module, g: str, cls: ast.ClassDef, b: str, foreign: bool = False):
+    def rewrite(node, recv):
+        class _T(ast.NodeTransformer):
+            def visit_Name(self, n):
+                if n.id == g and isinstance(n.ctx, ast.Load):
+                    return ast.copy_location(ast.Attribute(value=ast.Name(id=recv, ctx=ast.Load()), attr=b, ctx=ast.Load()), n)
+                return n
+        _T().visit(node)
+    for st in tree.body:
+        if st is cls and not foreign:
+            for x in st.body:
+                if isinstance(x, ast.FunctionDef):
+                    static = any(isinstance(d, ast.Name) and d.id in ("staticmethod", "classmethod") for d in x.decorator_list)
+                    first = x.args.args[0].arg if x.args.args else None
+                    local = {n.id for n in ast.walk(x) if isinstance(n, ast.Name) and isinstance(n.ctx, ast.Store)} | {a.arg for a in x.args.args}
+                    if g in local:
+                        continue
+                    for sub in x.body:
+                        rewrite(sub, first if (not static and first == "self") else cls.name)
+                else:
+                    rewrite(x, cls.name) if not isinstance(x, ast.ClassDef) else None
+        elif isinstance(st, (ast.Import, ast.ImportFrom)):
+            continue
+        else:
+            rewrite(st, cls.name)
